@@ -71,6 +71,10 @@ impl Type {
                             Option::<DynShape>::from_iter(arr.data.iter().copied().map(num_as_dim))?;
                         return Some(shape.with_scalar(Scalar::Any));
                     }
+                    // A non-empty box list whose first item is no scalar
+                    // specification is no specification. Falling through
+                    // would come back here with the same value.
+                    Value::Box(arr) if arr.rank() == 1 && !arr.data.is_empty() => return None,
                     _ => {}
                 }
             }
